@@ -304,8 +304,13 @@ class PrettyFormatter(BaseFormatter):
             m = _EXP_PATTERN.match(mstr)
 
             if m:
-                exp = int(m.group(2) + m.group(3))
-                mstr = _EXP_PATTERN.sub(r"\1×10" + pretty_fmt_exponent(exp), mstr)
+                # each number carries its own exponent (e.g. complex magnitudes)
+                mstr = _EXP_PATTERN.sub(
+                    lambda m: m.group(1)
+                    + "×10"
+                    + pretty_fmt_exponent(int(m.group(2) + m.group(3))),
+                    mstr,
+                )
 
             return mstr
 
